@@ -156,7 +156,12 @@ func runProperty(eng *Engine, o *Options, start time.Time) int {
 		// keep only relevant obligations
 		var kept []*Obligation
 		for _, ob := range res.Obls {
-			if sweepKeys[k] && !ob.Implicit && ob.Kind != "cover" {
+			if sweepKeys[k] && !ob.Implicit && ob.Kind != "cover" && ob.Kind != "immut" {
+				continue
+			}
+			if o.Sweep && prop != "C11" && ob.Kind != "cover" && !hasProp(ob.Props, prop) {
+				// property-specific sweeps (C15: immutability of configuration) keep only the
+				// obligations written for that property
 				continue
 			}
 			if sweepKeys[k] && baseline != nil && o.Tier != "thorough" && !ob.Cover && !baseline[res.Key+"/"+ob.Name] {
